@@ -13,7 +13,8 @@ Ties
   oracle (specification, independent of the model): real `getindex` lists partition range(npoints); real
       `integrate(f)` equals the sum over elements and points of (semantic) weight x real `eval(f)` at the advertised
       index; real `eval(F)[getindex(i)[k]]` equals the value of F at point k of element i evaluated on the leaf sample
-      directly; exact rational integration of monomials by every rule of every reference kind.
+      directly; exact rational integration of monomials by every rule of every reference kind, for scalar degrees and for
+      degrees per direction (tuples: tensor factors, simplices, cut cells = mosaics / children that are mosaics).
 """
 import numpy, ast, math, itertools, warnings, os, sys, functools
 from fractions import Fraction
@@ -683,7 +684,8 @@ def run(c):
               'simplex (Kuhn), mixed, hierarchical, trimmed (mosaic / with-children) topologies, explicit-point leaves with custom index, '
               'located points, sums, products, element subsets (unsorted, repeated, empty), n-ary zips; a case is non-trivial when it has '
               'at least two class levels or a custom index; distinct by its model expression. rules: every scheme/degree on every '
-              'reference kind incl. tensor, refined children, trimmed mosaics; all extracted Gauss tables')
+              'reference kind incl. tensor, refined children, trimmed mosaics; all extracted Gauss tables. rules-tuple: degrees per direction (tuples) on every reference of '
+              'dimension >= 2 plus references cut directly by Reference.trim, Gauss exactness per direction; topology integrals with tuple degrees in the three API spellings')
     c.assumptions += [
         'numpy float arithmetic is exact on the dyadic data fed to the exact streams; Gauss points are compared with tolerance 1e-12',
         'the 1-D Gauss nodes come from a floating-point eigen-solve (numpy.linalg.eigh): exactness is checked numerically only (exploration)',
@@ -772,7 +774,8 @@ def known_finding_inputs():
         a = X[:1].sample('gauss', 2) + X[1:].sample('gauss', 2)
         (a * (Y.sample('gauss', 2).take_elements(numpy.array([0, 1])) * Z.sample('gauss', 2))).eval(x)
 
-    return {KNOWN_SIG: (sum_under_take, NotImplementedError), EMPTY_MUL_SIG: (empty_factor, AssertionError), TRANSPOSE_SIG: (transpose_axis, ValueError)}
+    return {KNOWN_SIG: (sum_under_take, NotImplementedError), EMPTY_MUL_SIG: (empty_factor, (AssertionError, ZeroDivisionError)),     # same root cause, the exception type depends on the shapes
+             TRANSPOSE_SIG: (transpose_axis, ValueError)}
 
 
 def stream_known_finding(c):
@@ -954,7 +957,7 @@ def stream_rules(c, quick, pool=None):
                 c.failing_input('rule-volume:%s' % scheme, '%s %s%r: weights sum to %.15g, volume is %.15g' % (name, scheme, degree, float(wsum), float(vol)), dict(replay, wsum=float(wsum), volume=float(vol)))
                 continue
             # all points inside the element
-            out = [p for p in fco if not inside_shape(shape, p)]
+            out = points_outside(shape, co, fco)
             if out:
                 nbad += 1
                 c.failing_input('rule-outside:%s' % scheme, '%s %s%r: point %s outside the element' % (name, scheme, degree, [float(x) for x in out[0]]), dict(replay, point=[float(x) for x in out[0]]))
@@ -1098,6 +1101,22 @@ def directly_trimmed_references(c, n):
     return out
 
 
+def points_outside(shape, co, fco):
+    """the points (Fractions) that are outside every simplex of `shape`.  A float barycentric test first accepts the points that are
+    inside some simplex by a clear margin (1e-9; the data are O(1) and dyadic, float error is ~1e-15); everything else (boundary points,
+    suspects) is decided by the exact rational test."""
+    if not len(co): return []
+    clear = numpy.zeros(len(co), dtype=bool)
+    for S in shape:
+        V = numpy.array([[float(x) for x in v] for v in S])
+        A = (V[1:] - V[0]).T
+        if abs(numpy.linalg.det(A)) < 1e-12: continue
+        lam = numpy.linalg.solve(A, (co - V[0]).T).T
+        clear |= (lam.min(axis=1) >= 1e-9) & (lam.sum(axis=1) <= 1 - 1e-9)
+        if clear.all(): return []
+    return [p for p, ok in zip(fco, clear) if not ok and not inside_shape(shape, p)]
+
+
 def contains_mosaic(ref):
     from nutils import element
     if isinstance(ref, element.MosaicReference): return True
@@ -1166,7 +1185,7 @@ def stream_rules_tuple(c, quick, pool):
                 nbad += 1
                 c.failing_input('rule-volume:%s' % scheme, '%s %s%r: weights sum to %.15g, volume is %.15g' % (name, scheme, degree, float(wsum), float(vol)), dict(replay, wsum=float(wsum), volume=float(vol)))
                 continue
-            out = [p for p in fco if not inside_shape(shape, p)]
+            out = points_outside(shape, co, fco)
             if out:
                 nbad += 1
                 c.failing_input('rule-outside:%s' % scheme, '%s %s%r: point %s outside the element' % (name, scheme, degree, [float(x) for x in out[0]]), dict(replay, point=[float(x) for x in out[0]]))
